@@ -263,7 +263,8 @@ def main():
     cases = dlib.load()
     gc.collect()
     gc.freeze()      # everything imported so far is out of the collector's way: gc.collect() stays cheap
-    sys.stdout.write(json.dumps([run_case(c) for c in cases]))
+    # results are kept as strings: the collector does not have to traverse them at every gc.collect()
+    sys.stdout.write("[" + ",".join(json.dumps(run_case(c)) for c in cases) + "]")
     sys.stdout.flush()
 
 
